@@ -107,7 +107,7 @@ def run_one(tape, tier, prop):
     t = tape
     res.stats["queue_size_knob_%s" % session.draw_queue_knob(t)] += 1
     spec = gen_world(t)
-    wr = scratch.fresh_disk()
+    wr = scratch.fresh_disk(scratch.draw_place(t))
     rdir = os.path.join(wr, "Rules", "R")
     worlds.write_ruleset(spec, rdir)
     res.sample = {"ruleset": worlds.spec_summary(spec), "markov_position": spec["mpos"]}
@@ -268,5 +268,9 @@ def run_one(tape, tier, prop):
 
 
 def extra_phase(tier, base_seed):
-    from .. import bigworld
-    return bigworld.restriction_phase(tier, base_seed)
+    from .. import bigworld, boundary
+    out = bigworld.restriction_phase(tier, base_seed)
+    b = boundary.c14_phase(tier, base_seed)
+    out["violations"].extend(b.pop("violations", []))
+    out.update(b)
+    return out
